@@ -60,7 +60,8 @@ def cd_function(fam: str):
     if fam == "lev5":
         return lambda a, b: 5 * _lev(a, b)
     if fam == "hamlen":
-        return lambda a, b: 0.25 * sum(1 for x, y in zip(a, b) if x != y) + abs(len(a) - len(b))
+        # a Python int 0 for identical strings, fractional values otherwise (the result type varies with the arguments)
+        return lambda a, b: sum(0.25 for x, y in zip(a, b) if x != y) + abs(len(a) - len(b))
     if fam == "len":
         return lambda a, b: abs(len(a) - len(b))
     if fam == "disc":
@@ -385,10 +386,14 @@ def compare_case(doc, letters=AA, api=None):
     _NCALL[0] += 1
     # every fifth call goes through the progress-bar code path where the function has one (the bar itself is disabled)
     extra = dict(progress=True) if (_NCALL[0] % 5 == 0 and api in ("symdel", "hash_based", "LookupDB")) else None
+    # every third call hands the sequences over in another container (tuple, ndarray, Series with default / shifted / permuted /
+    # string index): reported positions are ordinal positions whatever the container
+    cont = CONTAINERS[(_NCALL[0] // 3) % len(CONTAINERS)] if _NCALL[0] % 3 == 0 else "list"
+    tag = "" if cont == "list" else f" [container={cont}]"
     try:
-        got_list = norm_triplets(call_engine(inp, letters, api=api, extra=extra), inp["mode"])
+        got_list = norm_triplets(call_engine(inp, letters, api=api, extra=extra, container=cont), inp["mode"])
     except Exception as e:     # noqa: BLE001
-        return [("Join", "raised", f"{type(e).__name__}: {e}"[:200])], drift
+        return [("Join", "raised", f"{type(e).__name__}: {e}{tag}"[:200])], drift
     got = sorted(map(tuple, got_list))
     if len(got) != len(set((a, b) for a, b, _ in got)):
         api_bad.append(("Join", "repeated", str(got)[:300]))
@@ -399,18 +404,18 @@ def compare_case(doc, letters=AA, api=None):
         api_bad.append(("Join", "missing_pair_equal_positions", str(sorted(p for p in miss if p[0] == p[1]))[:300]))
         miss = {p for p in miss if p[0] != p[1]}
     if miss:
-        api_bad.append(("Join", "missing_pair", str(sorted(miss))[:300]))
+        api_bad.append(("Join", "missing_pair", str(sorted(miss))[:300] + tag))
     if gp - wp:
-        api_bad.append(("Join", "spurious_pair", str(sorted(gp - wp))[:300]))
+        api_bad.append(("Join", "spurious_pair", str(sorted(gp - wp))[:300] + tag))
     if (gs - ws) and not (gp - wp) and not (wp - gp):
-        api_bad.append(("Join", "wrong_distance", str(sorted(gs - ws))[:300]))
+        api_bad.append(("Join", "wrong_distance", str(sorted(gs - ws))[:300] + tag))
     # dense form
     try:
-        dense = norm_dense(call_engine(inp, letters, api=api, output_type="ndarray"), inp["mode"])
+        dense = norm_dense(call_engine(inp, letters, api=api, output_type="ndarray", container=cont), inp["mode"])
         if dense != doc["dense"]:
-            api_bad.append(("Output", "entry_differs", f"got {dense} want {doc['dense']}"[:300]))
+            api_bad.append(("Output", "entry_differs", f"got {dense} want {doc['dense']}{tag}"[:300]))
     except Exception as e:     # noqa: BLE001
-        api_bad.append(("Output", "raised", f"{type(e).__name__}: {e}"[:200]))
+        api_bad.append(("Output", "raised", f"{type(e).__name__}: {e}{tag}"[:200]))
     # internal state
     ev = _index_events(inp, letters)
     if ev.get("logged"):
